@@ -38,9 +38,9 @@ def objects(platform):
         a.srcaddr.note = Note("src")
         return a
 
-    def acl(group=False, groups=True):
+    def acl(group=False, groups=True, leading=False):
         def f():
-            a = cisco_acl.Acl("\n".join([head, "remark = H1", f"permit tcp {host} any eq 80", f"deny ip {g} G1 any log" if groups else f"deny ip {net} {host} log", "remark = H2", "permit icmp any any",
+            a = cisco_acl.Acl("\n".join([head] + (["permit ip host 9.9.9.9 any", "remark before the first heading"] if leading else []) + ["remark = H1", f"permit tcp {host} any eq 80", f"deny ip {g} G1 any log" if groups else f"deny ip {net} {host} log", "remark = H2", "permit icmp any any",
                                          f"permit tcp any range 20 21 {net} range 1024 65535", "permit udp any any gt 1023"]),
                               platform=platform, note=Note("acl"))
             for i, o in enumerate(a.items):
@@ -70,6 +70,7 @@ def objects(platform):
         ("Acl", acl(False)),
         ("Acl(grouped)", acl(True)),
         ("Acl(no address groups)", acl(False, False)),
+        ("Acl(entries before the first heading)", acl(False, True, True)),
     ]
 
 
@@ -183,7 +184,7 @@ TRANSFORMS = ["grouped-sort", "grouped-resequence", "grouped-port_nr", "grouped-
 def check_ids(arg):
     import cisco_acl
     platform, tr = arg
-    acl = objects(platform)[13 if tr.startswith("type-standard") else 11][1]()
+    acl = objects(platform)[13 if tr.startswith("type-standard") else (14 if tr.startswith("grouped-") else 11)][1]()
     other = "nxos" if platform == "ios" else "ios"
     pre_grouped = tr in ("grouped-sort", "grouped-resequence", "grouped-port_nr", "grouped-protocol_nr")
     if pre_grouped:
